@@ -145,7 +145,7 @@ func TestC05(t *testing.T) {
 	// rebuild sequences: the decision must follow the *current* length
 	rebuilds := 0
 	for _, p := range families {
-		for i := 0; i < mon.Pick(100, 2000); i++ {
+		for i := 0; i < mon.Pick(100, 20000); i++ {
 			rg := Sub("C05rebuild", i)
 			l1, l2 := 3+rg.Intn(250), 3+rg.Intn(250)
 			u := tls.UClient(nil, &tls.Config{ServerName: sniOfLen(l1, i), OmitEmptyPsk: true}, p.ID)
